@@ -138,6 +138,9 @@ def documents(tier, layer):
                 out.append(('parent-p/' + iname, (('e', 'p', (), kids),), False))
                 if layer != 'plain':
                     out.append(('parent-q/' + iname, (('e', 'q', (), kids),), False))
+            if iname == 'none' and 2 <= len(row) <= 4:
+                # children of an <iframe> (html.parser keeps them as elements): positions among them are ordinary positions
+                out.append(('parent-iframe/none', (('e', 'div', (), (('e', 'iframe', (), kids), ('e', 'b', (), ()))),), False))
             if iname in ('none', 'comment') and row:
                 # children of the document object itself, with a doctype and comments around
                 out.append(('document/' + iname, (('dt', 'html'), ('c', 'k')) + kids + (('c', 'k'),), False))
@@ -153,7 +156,9 @@ def documents(tier, layer):
 
 
 NS_ROWS_XML = ('<r xmlns:p="urn:a" xmlns:q="urn:b"><e/><p:e/><q:e/><e/><p:f/><e xmlns="urn:a"/><q:e/></r>',
-               '<r xmlns="urn:a" xmlns:q="urn:b"><e/><q:e/><e/><q:f/><q:e/><e/></r>')
+               '<r xmlns="urn:a" xmlns:q="urn:b"><e/><q:e/><e/><q:f/><q:e/><e/></r>',
+               # one prefix bound to two URIs, two prefixes bound to one URI: the type of an element is (URI, local name), never the prefix
+               '<r xmlns:p="urn:a" xmlns:q="urn:a"><p:e/><q:e/><p:e xmlns:p="urn:b"/><q:e/><p:e/></r>')
 NS_MAPS = [None, {'x': 'urn:a'}, {'': 'urn:a'}, {'': 'urn:b', 'x': 'urn:a'}, {'': 'urn:zz'}]
 
 
@@ -180,6 +185,25 @@ def run_ns(sv, res):
                             sig = {'kind': r['status'], 'direction': r.get('direction', r.get('exc', '')), 'context': 'namespaced-siblings', 'entry': 'select'}
                             sig.update(nth_feature(lst))
                             res.fail({'layer': 'ns', 'markup': m, 'map': nsmap, 'selector': lst, 'text': S.render(lst)}, sig, f'[map {nsmap!r}] ' + r.get('detail', ''))
+            # `of S` with S a bare or namespaced type: counted among ALL siblings matching S (whatever their namespace, for a bare name without a
+            # default namespace), which is not the same set as "siblings of the same type"
+            ofs = [(S.cx(S.cp((None, 'e'))),), (S.cx(S.cp(('*', 'e'))),), (S.cx(S.cp((None, 'e'))), S.cx(S.cp((None, 'f'))))]
+            if nsmap and 'x' in nsmap:
+                ofs.append((S.cx(S.cp(('x', 'e'))),))
+            for kind in ('child', 'last-child'):
+                for a, b in ((0, 1), (0, 2), (2, 1), (-1, 3), (1, 2)):
+                    for of in ofs:
+                        for typ in (None, ('*', '*')):
+                            lst = (S.cx(S.cp(typ, ('nth', kind, a, b, of, None))),)
+                            r = _sel.run_case(sv, soup, lst, namespaces=nsmap, ctx=ctx)
+                            res.evaluations += 1
+                            if r['status'] == 'ok':
+                                res.outcome('agree')
+                                res.nontrivial += 1 if r['want'] else 0
+                            elif r['status'] != 'unspecified':
+                                sig = {'kind': r['status'], 'direction': r.get('direction', r.get('exc', '')), 'context': 'namespaced-siblings', 'entry': 'select'}
+                                sig.update(nth_feature(lst))
+                                res.fail({'layer': 'ns', 'markup': m, 'map': nsmap, 'selector': lst, 'text': S.render(lst)}, sig, f'[map {nsmap!r}] ' + r.get('detail', ''))
             for x, y in ((':first-child', ':nth-child(1)'), (':last-child', ':nth-last-child(1)'), (':only-child', ':nth-child(1):nth-last-child(1)')):
                 for pre in ('*|*', ''):
                     ga, gb = sv.select(pre + x, soup, namespaces=nsmap), sv.select(pre + y, soup, namespaces=nsmap)
